@@ -35,6 +35,15 @@ CHECKS = {
  "C12": ("exploration", "cycle-by-cycle comparison of the real CSR bank array with a register-file model built from the declaration",
          "Random AutoCSR peripherals (storages +-atomic +-write_from_dev +-fields/pulse, statuses, raw CSRs, fixed locations, a CSR memory with sub-word staging and paging) collected by the real CSRBankArray at bus widths 8/32, big/little ordering and several pagings; random bus histories incl. unmapped and foreign-page addresses interleaved with device-side updates; dat_r, every storage, re/we strobes and field signals are predicted for every cycle; register placement compared with the documented rule.",
          "trusted: simulator, the model in props/c12.py; device and bus writes to one register never collide in a cycle", "4 C12"),
+ "C13": ("exploration", "icontract invariants/post-conditions on the real allocators under random hostile call histories; decoder predicates evaluated with the repository's Evaluator",
+         "Harness subclasses of SoCBusHandler / SoCCSRHandler / SoCIRQHandler / ConstraintManager carry icontract invariants (disjoint decoded windows, alignment, IO containment, unique names/numbers in range, available xor matched, one constraint per granted signal); SoCRegion.decoder is wrapped and its returned predicate evaluated on boundary and random addresses on real Wishbone/AXI interfaces; bus.finalize() and a CPU-less SoCCore.finalize() act as the finalization check. A request that raises is a rejection; an accepted state violating an invariant is the violation.",
+         "trusted: icontract, the invariants in props/c13mon.py, litex.gen.sim.core.Evaluator for decoder predicates", "4 C13"),
+ "C19": ("exploration", "pin-level protocol monitors written from the external standards / class documentation + bounded-completion watchdogs",
+         "UART TX frame decoder and RX frame generator (rate mismatch, every sub-bit phase, zero gaps, bad stop bits) on the PHYs and on the full UART behind a real CSR bank; SPI master monitor with MISO responder over dividers, lengths and start phases; SPI slave against a master BFM; I2C bus decoder on open-drain pads with a responder; Timer/Watchdog/WaitTimer/timeline/PWM against documented counter models through real CSR banks.",
+         "trusted: simulator, monitors in props/c19_*.py; tolerances listed in ASSUMPTIONS of the evidence", "4 C19"),
+ "C20": ("exploration", "icontract post-conditions on every helper's compute_config/do_finalize + independent brute-force cross-check of refusals",
+         "Random and boundary requests (input frequency, 1..max outputs, margins, phases, speed grades) for 20 vendor helpers; returned configurations are re-evaluated with device formulae written without LiteX (lib/models/pll.py): outputs within margin, every divider/multiplier/PFD/VCO inside the declared ranges, emitted Instance parameters equal the configuration; refusals are cross-checked by an independent search; the repository's test_clock.py also runs under the contracts.",
+         "trusted: icontract, lib/models/pll.py formulae and declared-range tables read from the classes", "4 C20"),
 }
 
 def main():
